@@ -12,7 +12,7 @@ use serde::{Deserialize, Serialize};
 use std::collections::BTreeSet;
 
 pub const VARS: [&str; 14] = ["a", "b", "c", "x", "y", "size", "int", "has", "all", "t0", "v_1", "k", ".a", ".size"];
-pub const FUNCS: [&str; 14] = ["f", "g", "size", "int", "contains", "h", "max", "m", "dyn", "type", "all", "map", ".f", ".size"];
+pub const FUNCS: [&str; 18] = ["f", "g", "size", "int", "contains", "h", "max", "m", "dyn", "type", "all", "map", ".f", ".size", "startsWith", "matches", "getHours", "duration"];
 
 #[derive(Clone, Debug, Serialize, Deserialize)]
 pub struct Case {
